@@ -44,7 +44,7 @@ func runSolve(b block) {
 		case "build":
 			resNames = fs[1:]
 		case "solve":
-			kv := map[string]int{"iterations": 50, "duration_ms": 2000, "runs": 1, "starts": 1, "det": 1, "repeat": 1, "snap": 0, "cancel_ms": -1, "jitter": 0}
+			kv := map[string]int{"iterations": 50, "duration_ms": 2000, "runs": 1, "starts": 1, "det": 1, "repeat": 1, "snap": 0, "cancel_ms": -1, "jitter": 0, "slow_us": 0}
 			for _, a := range fs[1:] {
 				p := strings.SplitN(a, "=", 2)
 				v, _ := strconv.Atoi(p[1])
@@ -68,6 +68,12 @@ func solveOnce(id string, input schema.Input, opts factory.Options, resNames []s
 	if err != nil {
 		fmt.Fprintf(out, "%s build error\n", id)
 		return
+	}
+	if kv["slow_us"] > 0 {
+		// a user constraint whose exact check is slow (and never violated): makes every executed move expensive
+		if err := model.AddConstraint(&slowCons{d: time.Duration(kv["slow_us"]) * time.Microsecond}); err != nil {
+			panic(err)
+		}
 	}
 	if kv["jitter"] > 0 {
 		model.AddSolutionObserver(&jitterObserver{rep: kv["_rep"], k: kv["jitter"]})
@@ -158,4 +164,15 @@ func solveOnce(id string, input schema.Input, opts factory.Options, resNames []s
 			return
 		}
 	}
+}
+
+type slowCons struct{ d time.Duration }
+
+func (c *slowCons) EstimateIsViolated(nextroute.Move) (bool, nextroute.StopPositionsHint) {
+	return false, nextroute.NoPositionsHint()
+}
+func (c *slowCons) String() string { return "slow_check" }
+func (c *slowCons) DoesStopHaveViolations(nextroute.SolutionStop) bool {
+	time.Sleep(c.d)
+	return false
 }
